@@ -30,12 +30,17 @@ Props/C18Reloc.lean — C18-R1 (relocation), statement level.
                          `Moved` and `MovedModAbs` of `MovedMod`; the 16-bit offset field is the label's address.
 (h) `*_movedNeg`, `reloc_fixAll_neg`, `reloc_finish_neg` (repair batch B3): the fourth class `MovedNeg` (`number - label`;
                          the field moves by MINUS `D` modulo `$10000`), whole program with four classes.
+(i) `*_any` (end of the file): the same theorems for programs at ANY origin, moves across `$100` included — the lower
+                         bound `256 ≤ o` of `OrgBounds` is gone (`OrgBoundsAny`), the relation between the two layouts is
+                         int-level (`AddrShiftAny` / `IntAddr`, Lemmas/RelocAny.lean); operand fields and bytes are
+                         related exactly as before, address values, label values and the origin at int level.
 -/
 import CoCoVerif.Lemmas.RelocAll
 import CoCoVerif.Lemmas.RelocSigned
 import CoCoVerif.Lemmas.RelocMod
 import CoCoVerif.Lemmas.RelocNeg
 import CoCoVerif.Lemmas.RelocEqu
+import CoCoVerif.Lemmas.RelocAny
 import CoCoVerif.Props.C18
 
 namespace CoCo.Props
@@ -1045,6 +1050,310 @@ theorem orgBounds_of_singleOrgFirst {D : Nat} {s0 : Stmt} {r0 : List Stmt} {o : 
   intro s hs o' h' m' n' hq
   rcases List.mem_cons.mp hs with rfl | hs
   · rw [ha] at hq; cases hq; exact ⟨h1, h2⟩
+  · rw [hr s hs] at hq; cases hq
+
+/-! ## (i) any origin: moves across `$100` included
+
+Since `fit_operand_width` every operand field is rendered at the width the instruction form dictates, so the CODE of a
+program does not depend on how its address values are rendered (one byte, DIRECT, below `$100`; two bytes from `$100`
+on).  The theorems below are (a)–(d), (f)–(h) without the lower bound `256 ≤ o` on the ORG values: the layouts are
+related by `AddrShiftAny` (numbers `D` apart, inside the 64K space, any rendering), operand fields and emitted bytes exactly
+as before, and the final symbol table, the statement addresses and the origin at int level (`EquRelAny`, `IntAddr`,
+`OriginAny`).  The one new hypothesis is `RefFitted` on the statements whose operand is a plain label: they are not
+among the directives `fit_operand_width` skips.  It holds of every statement of an accepted program
+(`stages_refFitted`, Props/C18RelocSrc.lean), so the theorems about parsed programs and source text do not ask for it. -/
+
+section anyOrigin
+variable {D : Nat}
+
+/-- every preset address stays inside the 64K space when moved (`OrgBounds` without the lower bound `$100`) -/
+def OrgBoundsAny (D : Nat) (ss : List Stmt) : Prop :=
+  ∀ s ∈ ss, ∀ o h m n, s.pkg.address = .numeric o h m n → o + D < 65536
+
+theorem OrgBounds.any {ss : List Stmt} (h : OrgBounds D ss) : OrgBoundsAny D ss :=
+  fun s hs o hh m n ha => (h s hs o hh m n ha).2
+
+/-- after `assignAddrs`, any origin: equal except for the address; the addresses are numbers `a`, `a + D` inside the
+64K space, rendered in any way -/
+def RelocOutAny (D : Nat) (s s' : Stmt) : Prop :=
+  s' = s.setAddress s'.pkg.address ∧ AddrShiftAny D s s'
+
+theorem RelocOut.any {s s' : Stmt} (h : RelocOut D s s') : RelocOutAny D s s' := ⟨h.1, h.2.toAny⟩
+
+theorem RelocOutAny.addrShiftAny {as as' : List Stmt} (h : PW (RelocOutAny D) as as') : PW (AddrShiftAny D) as as' :=
+  h.mono (fun _ _ r => r.2)
+
+theorem RelocOutAny.addrShiftI {as as' : List Stmt} (h : PW (RelocOutAny D) as as') : PW (AddrShiftI D) as as' :=
+  h.mono (fun _ _ r => r.2.toI)
+
+/-! ### (a) address assignment -/
+
+section assignAny
+variable {ss ss' : List Stmt}
+
+/-- (a, any origin) both laid out: statement by statement, equal except for the address, and the addresses are
+numbers `D` apart inside the 64K space -/
+theorem reloc_assign_rel_any (hin : PW (RelocIn D) ss ss') (h0 : StartsWithOrg ss) (hb : OrgBoundsAny D ss)
+    {as as' : List Stmt} (h : assignAddrs ss 0 = .ok as) (h' : assignAddrs ss' 0 = .ok as') :
+    PW (RelocOutAny D) as as' := by
+  have hw : PW (AddrShiftAny D) as as' := by
+    obtain ⟨s0, r0, o, m, rfl, ha⟩ := h0
+    obtain ⟨s0', r0', rfl, ha'⟩ := relocIn_head hin ha
+    have h'' := h'
+    rw [assignAddrs_head_preset ha' 0 (0 + D)] at h''
+    exact assignAddrs_reloc_any D _ _ 0 as as' (hin.mono (fun _ _ => RelocIn.orgShift)) (relocIn_orgWide hin)
+      hb h h''
+  have h1 := assignAddrs_pw h
+  have h2 := assignAddrs_pw h'
+  refine ⟨hw.1, ?_⟩
+  intro j s s' hs hs'
+  refine ⟨?_, hw.2 j s s' hs hs'⟩
+  obtain ⟨x, hx, v, rfl⟩ := h1.get' hs
+  obtain ⟨x', hx', v', rfl⟩ := h2.get' hs'
+  rcases hin.2 j x x' hx hx' with ⟨_, rfl⟩ | ⟨o, m, _, rfl⟩ <;> rfl
+
+/-- (a, any origin) acceptance: the relocated program is laid out iff the original one is and no statement address
+leaves the 64K space (`reloc_assign_iff` without the lower bound on the ORG values) -/
+theorem reloc_assign_iff_any (hin : PW (RelocIn D) ss ss') (h0 : StartsWithOrg ss) (hb : OrgBoundsAny D ss) :
+    (∃ as', assignAddrs ss' 0 = .ok as') ↔
+      ∃ as, assignAddrs ss 0 = .ok as ∧ ∀ s ∈ as, ∀ n, addrNat s = some n → n + D < 65536 := by
+  constructor
+  · rintro ⟨as', h'⟩
+    obtain ⟨as, h, _⟩ := reloc_assign_bwd hin h0 h'
+    refine ⟨as, h, ?_⟩
+    intro s hs n hn
+    have hout := reloc_assign_rel_any hin h0 hb h h'
+    obtain ⟨j, hj⟩ := List.getElem?_of_mem hs
+    obtain ⟨s', _, _, _, hw⟩ := hout.get hj
+    obtain ⟨a, e1, _, hlt⟩ := hw.int
+    simp only [addrNat] at hn
+    rw [e1] at hn; cases hn
+    exact hlt
+  · rintro ⟨as, h, hlt⟩
+    obtain ⟨as', h', _⟩ := reloc_assign_fwd hin h0 h hlt
+    exact ⟨as', h'⟩
+
+end assignAny
+
+/-! ### (b) `fixFit`, (c) bytes -/
+
+section fixAny
+variable {as as' : List Stmt}
+
+/-- (b, moved, any origin), general form -/
+theorem reloc_fixFit_moved_any' (h : PW (AddrShiftAny D) as as') {i : Nat} {s s' : Stmt}
+    (he : s' = s.setAddress s'.pkg.address) (hc : Moved D as s) (hfit : RefFitted s) :
+    fixFit as' i s' = (fixFit as i s).map (fun t => (t.shiftAdditional D).setAddress s'.pkg.address) := by
+  have : fixFit as' i s' = fixFit as' i (s.setAddress s'.pkg.address) := by rw [← he]
+  rw [this, fixFit_setAddress, fixFit_moved_any h i hc hfit, outcome_map_map]
+
+/-- (c, moved, any origin), general form: the code ends with a 16-bit big-endian field holding `x` resp. `x + D`;
+the bytes before that field (op code, post byte) are identical -/
+theorem reloc_bytes_moved_any' (h : PW (AddrShiftAny D) as as') {i : Nat} {s s' t t' : Stmt}
+    (he : s' = s.setAddress s'.pkg.address) (hc : Moved D as s) (hfit : RefFitted s)
+    (ht : fixFit as i s = .ok t) (ht' : fixFit as' i s' = .ok t') {bs : Bytes} (hb : stmtBytes t = some bs) :
+    t' = (t.shiftAdditional D).setAddress s'.pkg.address ∧
+    ∃ pre x, t.pkg.additional.int? = some x ∧ x + D < 65536 ∧ bs = pre ++ [x / 256, x % 256] ∧
+      stmtBytes t' = some (pre ++ [(x + D) / 256, (x + D) % 256]) := by
+  rw [reloc_fixFit_moved_any' h he hc hfit, ht] at ht'
+  simp only [Outcome.map_ok, Outcome.ok.injEq] at ht'
+  subst ht'
+  refine ⟨rfl, ?_⟩
+  rw [stmtBytes_setAddress]
+  exact stmtBytes_shiftAdditional (fixFit_moved_wide_any h i hc hfit ht) hb
+
+/-- (b, unmoved, any origin) the outcome of `fix_addresses; fit_operand_width` is IDENTICAL (up to the statement's
+own address field) -/
+theorem reloc_fixFit_unmoved_any (h : PW (RelocOutAny D) as as') {i : Nat} {s s' : Stmt}
+    (hs : as[i]? = some s) (hs' : as'[i]? = some s') (hc : Unmoved D as s) :
+    fixFit as' i s' = (fixFit as i s).map (·.setAddress s'.pkg.address) :=
+  reloc_fixFit_unmoved' (RelocOutAny.addrShiftI h) (h.2 i s s' hs hs').1 hc
+
+/-- (b, moved, any origin) the same outcome, the stored operand value moved by `D` -/
+theorem reloc_fixFit_moved_any (h : PW (RelocOutAny D) as as') {i : Nat} {s s' : Stmt}
+    (hs : as[i]? = some s) (hs' : as'[i]? = some s') (hc : Moved D as s) (hfit : RefFitted s) :
+    fixFit as' i s' = (fixFit as i s).map (fun t => (t.shiftAdditional D).setAddress s'.pkg.address) :=
+  reloc_fixFit_moved_any' (RelocOutAny.addrShiftAny h) (h.2 i s s' hs hs').1 hc hfit
+
+/-- (b, moved modulo, any origin) -/
+theorem reloc_fixFit_movedMod_any (h : PW (RelocOutAny D) as as') {i : Nat} {s s' : Stmt}
+    (hs : as[i]? = some s) (hs' : as'[i]? = some s') (hc : MovedMod D as s) :
+    fixFit as' i s' = (fixFit as i s).map (fun t => (t.shiftAdditionalMod D).setAddress s'.pkg.address) :=
+  reloc_fixFit_movedMod' (RelocOutAny.addrShiftI h) (h.2 i s s' hs hs').1 hc
+
+/-- (b, moved backwards, any origin) -/
+theorem reloc_fixFit_movedNeg_any (h : PW (RelocOutAny D) as as') {i : Nat} {s s' : Stmt}
+    (hs : as[i]? = some s) (hs' : as'[i]? = some s') (hc : MovedNeg as s) :
+    fixFit as' i s' = (fixFit as i s).map (fun t => (t.shiftAdditionalNeg D).setAddress s'.pkg.address) :=
+  reloc_fixFit_movedNeg' (RelocOutAny.addrShiftI h) (h.2 i s s' hs hs').1 hc
+
+/-- (c, unmoved, any origin) byte-for-byte identical code -/
+theorem reloc_bytes_unmoved_any (h : PW (RelocOutAny D) as as') {i : Nat} {s s' t t' : Stmt}
+    (hs : as[i]? = some s) (hs' : as'[i]? = some s') (hc : Unmoved D as s)
+    (ht : fixFit as i s = .ok t) (ht' : fixFit as' i s' = .ok t') :
+    t' = t.setAddress s'.pkg.address ∧ stmtBytes t' = stmtBytes t :=
+  reloc_bytes_unmoved' (RelocOutAny.addrShiftI h) (h.2 i s s' hs hs').1 hc ht ht'
+
+/-- (c, moved, any origin) the code ends with a 16-bit big-endian field holding `x` resp. `x + D`; the bytes before
+that field (op code, post byte) are identical -/
+theorem reloc_bytes_moved_any (h : PW (RelocOutAny D) as as') {i : Nat} {s s' t t' : Stmt}
+    (hs : as[i]? = some s) (hs' : as'[i]? = some s') (hc : Moved D as s) (hfit : RefFitted s)
+    (ht : fixFit as i s = .ok t) (ht' : fixFit as' i s' = .ok t') {bs : Bytes} (hb : stmtBytes t = some bs) :
+    t' = (t.shiftAdditional D).setAddress s'.pkg.address ∧
+    ∃ pre x, t.pkg.additional.int? = some x ∧ x + D < 65536 ∧ bs = pre ++ [x / 256, x % 256] ∧
+      stmtBytes t' = some (pre ++ [(x + D) / 256, (x + D) % 256]) :=
+  reloc_bytes_moved_any' (RelocOutAny.addrShiftAny h) (h.2 i s s' hs hs').1 hc hfit ht ht' hb
+
+/-- (c, moved modulo, any origin) -/
+theorem reloc_bytes_movedMod_any (h : PW (RelocOutAny D) as as') {i : Nat} {s s' t t' : Stmt}
+    (hs : as[i]? = some s) (hs' : as'[i]? = some s') (hc : MovedMod D as s)
+    (ht : fixFit as i s = .ok t) (ht' : fixFit as' i s' = .ok t') {bs : Bytes} (hb : stmtBytes t = some bs) :
+    t' = (t.shiftAdditionalMod D).setAddress s'.pkg.address ∧
+    ∃ pre x, t.pkg.additional.int? = some x ∧ x < 65536 ∧ bs = pre ++ [x / 256, x % 256] ∧
+      stmtBytes t' = some (pre ++ [(x + D) % 65536 / 256, (x + D) % 65536 % 256]) :=
+  reloc_bytes_movedMod' (RelocOutAny.addrShiftI h) (h.2 i s s' hs hs').1 hc ht ht' hb
+
+/-- (c, moved backwards, any origin) -/
+theorem reloc_bytes_movedNeg_any (h : PW (RelocOutAny D) as as') {i : Nat} {s s' t t' : Stmt}
+    (hs : as[i]? = some s) (hs' : as'[i]? = some s') (hc : MovedNeg as s)
+    (ht : fixFit as i s = .ok t) (ht' : fixFit as' i s' = .ok t') {bs : Bytes} (hb : stmtBytes t = some bs) :
+    t' = (t.shiftAdditionalNeg D).setAddress s'.pkg.address ∧
+    ∃ pre x y, t.pkg.additional.int? = some x ∧ x < 65536 ∧ y < 65536 ∧ (y + D) % 65536 = x ∧
+      bs = pre ++ [x / 256, x % 256] ∧ stmtBytes t' = some (pre ++ [y / 256, y % 256]) :=
+  reloc_bytes_movedNeg' (RelocOutAny.addrShiftI h) (h.2 i s s' hs hs').1 hc ht ht' hb
+
+end fixAny
+
+/-! ### (d) the whole back end after `assignAddrs` -/
+
+section wholeAny
+variable {as as' : List Stmt}
+
+/-- after `fixAll`, four classes, any origin: equal except for the address and — for moved statements — the operand
+field (as `FinalRelNeg`); the addresses are numbers `D` apart inside the 64K space -/
+def FinalRelAny (D : Nat) (t t' : Stmt) : Prop :=
+  (t' = t.setAddress t'.pkg.address ∨ t' = (t.shiftAdditional D).setAddress t'.pkg.address ∨
+    t' = (t.shiftAdditionalMod D).setAddress t'.pkg.address ∨
+    t' = (t.shiftAdditionalNeg D).setAddress t'.pkg.address) ∧ AddrShiftAny D t t'
+
+theorem FinalRelNeg.any {t t' : Stmt} (h : FinalRelNeg D t t') : FinalRelAny D t t' := ⟨h.1, h.2.toAny⟩
+
+/-- the statement classes of a program at any origin: `Unmoved`; `Moved` with `RefFitted`; `MovedMod`; `MovedNeg` -/
+def CoveredAny (D : Nat) (as : List Stmt) (s : Stmt) : Prop :=
+  Unmoved D as s ∨ (Moved D as s ∧ RefFitted s) ∨ MovedMod D as s ∨ MovedNeg as s
+
+/-- `fixAll` on a program at any origin all of whose statements are in one of the four classes: same outcome kind, and
+statement by statement `FinalRelAny` -/
+theorem reloc_fixAll_any (h : PW (RelocOutAny D) as as')
+    (hcov : ∀ (i : Nat) (s : Stmt), as[i]? = some s → CoveredAny D as s) :
+    OutRel (PW (FinalRelAny D)) (fixAll as 0 as) (fixAll as' 0 as') := by
+  refine fixAll_outRel as as' 0 h.1 ?_
+  intro j s s' hs hs'
+  simp only [Nat.zero_add]
+  have hrel := (h.2 j s s' hs hs').2
+  rcases hcov j s hs with hc | ⟨hc, hfit⟩ | hc | hc
+  · refine OutRel.of_eq_map (reloc_fixFit_unmoved_any h hs hs' hc) ?_
+    intro t ht
+    obtain ⟨v, rfl⟩ := fixFit_keeps ht
+    exact ⟨.inl rfl, rfl, hrel.2⟩
+  · refine OutRel.of_eq_map (reloc_fixFit_moved_any h hs hs' hc hfit) ?_
+    intro t ht
+    obtain ⟨v, rfl⟩ := fixFit_keeps ht
+    exact ⟨.inr (.inl rfl), rfl, hrel.2⟩
+  · refine OutRel.of_eq_map (reloc_fixFit_movedMod_any h hs hs' hc) ?_
+    intro t ht
+    obtain ⟨v, rfl⟩ := fixFit_keeps ht
+    exact ⟨.inr (.inr (.inl rfl)), rfl, hrel.2⟩
+  · refine OutRel.of_eq_map (reloc_fixFit_movedNeg_any h hs hs' hc) ?_
+    intro t ht
+    obtain ⟨v, rfl⟩ := fixFit_keeps ht
+    exact ⟨.inr (.inr (.inr rfl)), rfl, hrel.2⟩
+
+theorem FinalRelAny.row_addr {t t' : Stmt} (h : FinalRelAny D t t') :
+    t'.row = t.row ∧ IntAddr D t.pkg.address t'.pkg.address := by
+  obtain ⟨h1, _, hw⟩ := h
+  refine ⟨?_, hw⟩
+  rcases h1 with h1 | h1 | h1 | h1 <;> rw [h1] <;> rfl
+
+theorem FinalRelAny.row_operand {t t' : Stmt} (h : FinalRelAny D t t') :
+    t'.row = t.row ∧ t'.operand = t.operand := by
+  obtain ⟨h1, _⟩ := h
+  rcases h1 with h1 | h1 | h1 | h1 <;> rw [h1] <;> exact ⟨rfl, rfl⟩
+
+/-- as `SymRel`, a label's values related at int level (`EquRelAny`) -/
+def SymRelAny (D : Nat) (as : List Stmt) (t r r' : SymTab) : Prop :=
+  ∀ (j : Nat) (k : Str) (v : Value), t[j]? = some (k, v) →
+    ∃ x x', r[j]? = some (k, x) ∧ r'[j]? = some (k, x') ∧ EquRelAny D as t v x x'
+
+/-- as `AsmRelEqu`, at any origin: statements related by `FinalRelAny`, symbol tables by `SymRelAny`, origins by
+`OriginAny` -/
+def AsmRelAny (D : Nat) (as : List Stmt) (t : SymTab) (A B : Assembly) : Prop :=
+  PW (FinalRelAny D) A.stmts B.stmts ∧
+  A.symtab.length = t.length ∧ B.symtab.length = t.length ∧ SymRelAny D as t A.symtab B.symtab ∧
+  OriginAny D A.origin B.origin ∧ B.name = A.name
+
+/-- (d, any origin, four classes, EQUs defined by label expressions allowed) `fixAll`, `evalSyms`, `finalSymTab`, origin
+and name: identical outcome kind, results related by `AsmRelAny` (`reloc_finish_equ` without the lower bound on the ORG
+values; `equCovered_of_noLabelEqu` gives `hequ` for a table without EQUs defined by label expressions) -/
+theorem reloc_finish_any (h : PW (RelocOutAny D) as as')
+    (hcov : ∀ (i : Nat) (s : Stmt), as[i]? = some s → CoveredAny D as s) (t : SymTab)
+    (hequ : ∀ kv ∈ t, EquCovered D as t kv.2) :
+    OutRel (AsmRelAny D as t) (finish t as) (finish t as') := by
+  have hfix := reloc_fixAll_any h hcov
+  have hI : PW (AddrShiftI D) as as' := RelocOutAny.addrShiftI h
+  unfold finish
+  generalize hfa : fixAll as 0 as = o at hfix ⊢
+  generalize hfb : fixAll as' 0 as' = o' at hfix ⊢
+  cases hfix with
+  | ok hr =>
+    rename_i fs fs'
+    dsimp only
+    have hsh : PW (AddrShiftAny D) fs fs' := hr.mono (fun _ _ r => r.2)
+    have hs := fixAll_sameAddr hfa
+    have hs' := fixAll_sameAddr hfb
+    have hev := evalSyms_outRel hI t t hequ
+    rw [← evalSyms_sameAddr hs, ← evalSyms_sameAddr hs'] at hev
+    generalize he : evalSyms fs t t = o1 at hev ⊢
+    generalize he' : evalSyms fs' t t = o1' at hev ⊢
+    cases hev with
+    | ok hp =>
+      rename_i t1 t1'
+      dsimp only
+      have hfin := finalSymTab_outRel (hsh.mono (fun _ _ => AddrShiftAny.toI)) t1 t1' hp
+      generalize hf : finalSymTab fs t1 = o2 at hfin ⊢
+      generalize hf' : finalSymTab fs' t1' = o2' at hfin ⊢
+      cases hfin with
+      | ok _ =>
+        rename_i r r'
+        dsimp only
+        refine .ok ⟨hr, ?_, ?_, ?_, ?_, ?_⟩
+        · exact (finalSymTab_length hf).trans (evalSyms_length he)
+        · exact (finalSymTab_length hf').trans (evalSyms_length he')
+        · intro j k v hj
+          exact symtab_reloc_entry_any hI hs hs' hsh he he' hf hf' hj
+        · exact origin_reloc_any fs fs' .none .none (.inl ⟨rfl, rfl⟩) (hr.mono (fun _ _ r => r.row_addr))
+        · exact name_reloc fs fs' none (hr.mono (fun _ _ r => r.row_operand))
+      | diag => exact .diag
+      | internal => exact .internal
+      | diverged => exact .diverged
+    | diag => exact .diag
+    | internal => exact .internal
+    | diverged => exact .diverged
+  | diag => exact .diag
+  | internal => exact .internal
+  | diverged => exact .diverged
+
+end wholeAny
+
+end anyOrigin
+
+/-- one ORG, on the first line, at ANY address `o` with `o + D < $10000` -/
+theorem orgBoundsAny_of_singleOrgFirst {D : Nat} {s0 : Stmt} {r0 : List Stmt} {o : Nat} {m : Mode}
+    (ha : s0.pkg.address = .numeric o (some 4) m false) (hr : ∀ s ∈ r0, s.pkg.address = .none)
+    (h2 : o + D < 65536) : OrgBoundsAny D (s0 :: r0) := by
+  intro s hs o' h' m' n' hq
+  rcases List.mem_cons.mp hs with rfl | hs
+  · rw [ha] at hq; cases hq; exact h2
   · rw [hr s hs] at hq; cases hq
 
 end CoCo.Props
